@@ -487,6 +487,8 @@ def pool_cases(ctx):
         [{"k": [1]}, {"m": ["u", "v"]}],
         [{}, {"z": [5, 6]}],
         {"b": [1, 2], "a": [True, None]},
+        [{"a": [1, 2]}, {"b": [1, 2]}],                       # distinct points with equal VALUES under different parameter names
+        [{"a": [1], "b": [2]}, {"c": [1], "d": [2]}, {"a": [1], "d": [2]}],
     ]
     if ctx.thorough:
         grids += [{"a": [1, 2, 3], "b": [1, 2]}, [{"a": [1, 2]}, {"b": [1, 2]}, {}], {"c": [1], "b": [2], "a": [3, 4]}]
